@@ -195,7 +195,7 @@ def main():
         os.path.join(HERE, "KNOWN_FINDINGS.json")) else {"findings": []}
     known_here = [k for k in known.get("findings", []) if k.get("property") == prop and k.get("status") == "open"]
 
-    timeout_ms = 10000 if tier == "quick" else 60000
+    timeout_ms = 15000 if tier == "quick" else 60000
     contracts = [c for c in REG.contracts.values() if prop in c.props]
     violations = []      # (obligation id, replay path, found_input)
     undecided = []
